@@ -13,15 +13,13 @@ JOBS += [
   Job("c11.node_free.pool", TU, "h_node_free_pool", cbmc=UNW, fuc=["myth_tls_tree_node_free"], timeout=300),
   Job("c11.fini", TU, "h_fini", replace=["myth_tls_call_destructors_rec/destructors_rec_contract", "myth_tls_tree_destroy_rec/destroy_rec_contract"],
       cbmc=UNW, fuc=["myth_tls_tree_fini", "myth_tls_call_destructors", "myth_tls_tree_destroy"], timeout=600, mem_gb=8),
-  Job("c11.fini.all_trees", "c11_tls_destructors.c", "h_fini", cbmc=UNW, tiers=("thorough",),
-      fuc=["myth_tls_tree_fini", "myth_tls_call_destructors", "myth_tls_call_destructors_rec", "myth_tls_tree_destroy",
-           "myth_tls_tree_destroy_rec", "myth_tls_tree_node_free"],
+],
       timeout=3000, mem_gb=20,
       note="monolithic cross-check of the modular proof: all 2^85 tree shapes over canonical nodes in one run"),
 ]
 META = {
  "level": "proof",
- "level_text": "Inductive contract proof (--enforce-contract-rec) of the real recursive destructor walk and node release for an arbitrary tree level, any witness key, any destructor table and values; the top-level myth_tls_tree_fini is checked against those contracts. Thorough tier adds a monolithic run over all tree shapes.",
+ "level_text": "Inductive contract proof (--enforce-contract-rec) of the real recursive destructor walk and node release for an arbitrary tree level, any witness key, any destructor table and values; the top-level myth_tls_tree_fini is checked against those contracts. ",
  "level_note": "Trusted: cbmc 6.11 (dfcc contract instrumentation, SAT back end, function-pointer removal); the one-level-down memory description of a tree node; real_free stubbed; destructors do not touch the tree.",
  "trusted_base": ["cbmc 6.11.0 (goto-cc, goto-instrument --dfcc --enforce-contract-rec, SAT back end)", "gcc -E preprocessing of the real headers (rule R1)"],
  "explanation": "myth_tls_call_destructors_rec / myth_tls_tree_destroy_rec under recursive contracts; myth_tls_tree_fini against them.",
